@@ -825,8 +825,26 @@ func leaves2() []leaf2 {
 			})
 		}
 	}
-	for _, dir := range []c2{{}, {X: 1}, {X: -1, Y: -1}, {X: 0.3, Y: -2}} {
-		add(fmt.Sprintf("Teardrop2D(dir=%v)", dir), &toolbox3d.Teardrop2D{Center: model2d.XY(0.5, -1), Radius: 0.7, Direction: dir}, nil)
+	// Direction is documented as a direction, not a unit vector: every length (shorter and longer than 1) in
+	// every quadrant, against the closed form (disc united with the tangent triangle whose tip is sqrt(2)*r
+	// from the centre along the normalised direction).
+	for _, dir := range []c2{{}, {X: 1}, {X: -1, Y: -1}, {X: 0.3, Y: -2}, {X: 0.3, Y: 0.4}, {Y: -0.25}, {X: -0.05, Y: 0.02}, {X: 0.2, Y: -0.1},
+		{X: -3, Y: 4}, {X: -1e-3}, {X: 1e-9, Y: 1e-9}, {Y: 1 << 20}} {
+		dir := dir
+		ctr, rad := model2d.XY(0.5, -1), 0.7
+		add(fmt.Sprintf("Teardrop2D(dir=%v)", dir), &toolbox3d.Teardrop2D{Center: ctr, Radius: rad, Direction: dir}, func(p c2) (bool, bool) {
+			q := p.Sub(ctr)
+			m := q.Norm()
+			ay := model2d.Y(1)
+			if dir != (c2{}) {
+				ay = dir.Scale(1 / dir.Norm())
+			}
+			x, y := q.X*ay.Y-q.Y*ay.X, q.Dot(ay)
+			h := rad / math.Sqrt2
+			inTri := y >= h && math.Abs(x)+y <= math.Sqrt2*rad
+			decisive := math.Abs(m-rad) > 1e-9 && math.Abs(y-h) > 1e-9 && math.Abs(math.Abs(x)+y-math.Sqrt2*rad) > 1e-9
+			return m <= rad || inTri, decisive
+		})
 	}
 	pr := model2d.NewConvexPolytopeRect(model2d.XY(-1, 0.5), model2d.XY(0.5, 1))
 	add("2d.ConvexPolytopeRect.Solid", pr.Solid(), func(p c2) (bool, bool) { return pr.Contains(p), true })
